@@ -4,7 +4,7 @@ namespace Gozod.Gen
 open Gozod.Tags Gozod.Tags.Sw
 
 def tagFacts : Facts where
-  names := ["ZodString", "string", "ZodIntegerTyped", "int,int", "int8,int8", "int16,int16", "int32,int32", "int64,int64", "uint,uint", "uint8,uint8", "uint16,uint16", "uint32,uint32", "uint64,uint64", "ZodFloatTyped", "float32,float32", "float64,float64", "ZodSlice", "string,[]string", "int,[]int", "int64,[]int64", "float64,[]float64", "bool,[]bool", "any,*[]any", "any,[]any", "*string", "int,*int", "int8,*int8", "int16,*int16", "int32,*int32", "int64,*int64", "uint,*uint", "uint8,*uint8", "uint16,*uint16", "uint32,*uint32", "uint64,*uint64", "float32,*float32", "float64,*float64", "string,*[]string", "int,*[]int", "int64,*[]int64", "float64,*[]float64", "bool,*[]bool", "ZodMap", "map[string]string,map[string]string", "map[string]int,map[string]int", "map[string]any,map[string]any", "applyMinConstraint", "applyMaxConstraint", "applyParameterizedRule", "applyParsedTagRules", "applyPositiveModifier", "applyNegativeModifier", "applyGtConstraint", "applyGteConstraint", "applyLtConstraint", "applyLteConstraint"]
+  names := ["ZodString", "string", "ZodIntegerTyped", "int,int", "int8,int8", "int16,int16", "int32,int32", "int64,int64", "uint,uint", "uint8,uint8", "uint16,uint16", "uint32,uint32", "uint64,uint64", "ZodFloatTyped", "float32,float32", "float64,float64", "ZodSlice", "string,[]string", "int,[]int", "int64,[]int64", "float64,[]float64", "bool,[]bool", "any,*[]any", "any,[]any", "*string", "int,*int", "int8,*int8", "int16,*int16", "int32,*int32", "int64,*int64", "uint,*uint", "uint8,*uint8", "uint16,*uint16", "uint32,*uint32", "uint64,*uint64", "float32,*float32", "float64,*float64", "string,*[]string", "int,*[]int", "int64,*[]int64", "float64,*[]float64", "bool,*[]bool", "numericTagSchema", "sizedTagSchema", "ZodMap", "ZodRecord", "stringTagSchema", "ZodBase64", "ZodBase64URL", "ZodCIDRv4", "ZodCIDRv6", "ZodCUID", "ZodCUID2", "ZodE164", "ZodEmail", "ZodEmoji", "ZodGUID", "ZodHex", "ZodHostname", "ZodIPv4", "ZodIPv6", "ZodIso", "ZodJWT", "ZodKSUID", "ZodMAC", "ZodNanoID", "ZodULID", "ZodURL", "ZodUUID", "ZodXID", "applyParameterizedRule", "applyMinConstraint", "applyMaxConstraint", "applyStringFormat", "applyNumericTagRule", "applyParsedTagRules", "applyEnumConstraint", "ZodBool", "bool", "applyLiteralConstraint", "*bool", "map[string]string,map[string]string", "map[string]any,map[string]any", "map[string]string,*map[string]string", "map[string]any,*map[string]any", "applyDefaultValue", "applyPrefaultValue", "applyNilableModifier"]
   schemaTy := [
     (⟨false, .string⟩, 0, 1),
     (⟨false, .int⟩, 2, 3),
@@ -54,32 +54,70 @@ def tagFacts : Facts where
     (⟨true, .slice_ptr_string⟩, 16, 22)
   ]
   rows := [
-    ⟨.min, 46, 2414, [⟨0, some 1⟩, ⟨2, some 3⟩, ⟨2, some 7⟩, ⟨13, some 15⟩, ⟨13, some 14⟩, ⟨16, some 17⟩, ⟨16, some 18⟩, ⟨16, some 23⟩, ⟨42, some 43⟩, ⟨42, some 44⟩, ⟨42, some 45⟩]⟩,
-    ⟨.max, 47, 2442, [⟨0, some 1⟩, ⟨2, some 3⟩, ⟨2, some 7⟩, ⟨13, some 15⟩, ⟨13, some 14⟩, ⟨16, some 17⟩, ⟨16, some 18⟩, ⟨16, some 23⟩, ⟨42, some 43⟩, ⟨42, some 44⟩, ⟨42, some 45⟩]⟩,
-    ⟨.length, 48, 2357, [⟨0, some 1⟩]⟩,
-    ⟨.length, 48, 2359, [⟨16, some 17⟩]⟩,
-    ⟨.length, 48, 2361, [⟨16, some 18⟩]⟩,
-    ⟨.length, 48, 2363, [⟨16, some 23⟩]⟩,
-    ⟨.email, 49, 2120, [⟨0, some 1⟩, ⟨0, some 24⟩]⟩,
-    ⟨.url, 49, 2128, [⟨0, some 1⟩, ⟨0, some 24⟩]⟩,
-    ⟨.uuid, 49, 2136, [⟨0, some 1⟩, ⟨0, some 24⟩]⟩,
-    ⟨.regex, 48, 2384, [⟨0, some 1⟩]⟩,
-    ⟨.positive, 50, 2316, [⟨2, some 3⟩, ⟨2, some 7⟩, ⟨13, some 15⟩, ⟨13, some 14⟩]⟩,
-    ⟨.negative, 51, 2331, [⟨2, some 3⟩, ⟨2, some 7⟩, ⟨13, some 15⟩, ⟨13, some 14⟩]⟩,
-    ⟨.nonempty, 49, 2234, [⟨0, some 1⟩]⟩,
-    ⟨.nonempty, 49, 2236, [⟨16, some 17⟩]⟩,
-    ⟨.nonempty, 49, 2238, [⟨16, some 18⟩]⟩,
-    ⟨.nonempty, 49, 2240, [⟨16, some 23⟩]⟩,
-    ⟨.nonempty, 49, 2242, [⟨42, some 43⟩]⟩,
-    ⟨.nonempty, 49, 2244, [⟨42, some 44⟩]⟩,
-    ⟨.nonempty, 49, 2246, [⟨42, some 45⟩]⟩,
-    ⟨.gt, 52, 2470, [⟨2, some 3⟩, ⟨2, some 7⟩, ⟨13, some 15⟩, ⟨13, some 14⟩]⟩,
-    ⟨.gte, 53, 2484, [⟨2, some 3⟩, ⟨2, some 7⟩, ⟨13, some 15⟩, ⟨13, some 14⟩]⟩,
-    ⟨.lt, 54, 2498, [⟨2, some 3⟩, ⟨2, some 7⟩, ⟨13, some 15⟩, ⟨13, some 14⟩]⟩,
-    ⟨.lte, 55, 2512, [⟨2, some 3⟩, ⟨2, some 7⟩, ⟨13, some 15⟩, ⟨13, some 14⟩]⟩
+    ⟨.min, 70, 2414, [⟨42, none⟩]⟩,
+    ⟨.min, 71, 2463, [⟨46, none⟩, ⟨43, none⟩]⟩,
+    ⟨.max, 70, 2414, [⟨42, none⟩]⟩,
+    ⟨.max, 72, 2473, [⟨46, none⟩, ⟨43, none⟩]⟩,
+    ⟨.length, 70, 2430, [⟨46, none⟩]⟩,
+    ⟨.length, 70, 2432, [⟨43, none⟩]⟩,
+    ⟨.email, 73, 2251, [⟨46, none⟩]⟩,
+    ⟨.url, 73, 2251, [⟨46, none⟩]⟩,
+    ⟨.uuid, 73, 2251, [⟨46, none⟩]⟩,
+    ⟨.regex, 70, 2437, [⟨46, none⟩]⟩,
+    ⟨.positive, 74, 2404, [⟨42, none⟩]⟩,
+    ⟨.negative, 74, 2404, [⟨42, none⟩]⟩,
+    ⟨.nonnegative, 74, 2404, [⟨42, none⟩]⟩,
+    ⟨.nonpositive, 74, 2404, [⟨42, none⟩]⟩,
+    ⟨.nonempty, 75, 2185, [⟨46, none⟩]⟩,
+    ⟨.nonempty, 75, 2187, [⟨43, none⟩]⟩,
+    ⟨.gt, 70, 2414, [⟨42, none⟩]⟩,
+    ⟨.gte, 70, 2414, [⟨42, none⟩]⟩,
+    ⟨.lt, 70, 2414, [⟨42, none⟩]⟩,
+    ⟨.lte, 70, 2414, [⟨42, none⟩]⟩
   ]
   ifaces := [
+    (42, [13, 2]),
+    (43, [44, 45, 16]),
+    (46, [0, 47, 48, 49, 50, 51, 52, 53, 54, 55, 56, 57, 58, 59, 60, 61, 62, 63, 64, 65, 66, 67, 68, 69])
+  ]
 
+/-- NON-PROPERTY table: the rule names types/struct.go implements but docs/tags.md does not list; same indices into
+    `tagFacts.names`; `(rule name, function, line, cases)`.  Read by C13 (gozodgen vs FromStruct); no C06 theorem. -/
+def tagSwitchesX : List (String × Nat × Nat × List CaseTy) := [
+    ⟨"enum", 76, 2484, [⟨0, some 1⟩, ⟨2, some 3⟩]⟩,
+    ⟨"literal", 79, 2504, [⟨0, some 1⟩, ⟨2, some 3⟩, ⟨77, some 78⟩]⟩,
+    ⟨"default", 85, 2520, [⟨0, some 1⟩, ⟨0, some 24⟩, ⟨2, some 3⟩, ⟨2, some 25⟩, ⟨2, some 4⟩, ⟨2, some 26⟩, ⟨2, some 5⟩, ⟨2, some 27⟩, ⟨2, some 6⟩, ⟨2, some 28⟩, ⟨2, some 7⟩, ⟨2, some 29⟩, ⟨2, some 8⟩, ⟨2, some 30⟩, ⟨2, some 9⟩, ⟨2, some 31⟩, ⟨2, some 10⟩, ⟨2, some 32⟩, ⟨2, some 11⟩, ⟨2, some 33⟩, ⟨2, some 12⟩, ⟨2, some 34⟩, ⟨13, some 15⟩, ⟨13, some 36⟩, ⟨13, some 14⟩, ⟨13, some 35⟩, ⟨77, some 78⟩, ⟨77, some 80⟩, ⟨16, some 17⟩, ⟨16, some 18⟩, ⟨16, some 20⟩, ⟨16, some 21⟩, ⟨44, some 81⟩, ⟨44, some 82⟩, ⟨16, some 37⟩, ⟨16, some 38⟩, ⟨16, some 40⟩, ⟨16, some 41⟩, ⟨44, some 83⟩, ⟨44, some 84⟩, ⟨45, some 84⟩]⟩,
+    ⟨"default", 85, 2643, []⟩,
+    ⟨"default", 85, 2656, []⟩,
+    ⟨"default", 85, 2676, []⟩,
+    ⟨"default", 85, 2696, []⟩,
+    ⟨"default", 85, 2715, []⟩,
+    ⟨"default", 85, 2734, []⟩,
+    ⟨"default", 85, 2746, []⟩,
+    ⟨"default", 85, 2765, []⟩,
+    ⟨"default", 85, 2784, []⟩,
+    ⟨"default", 85, 2803, []⟩,
+    ⟨"prefault", 86, 3226, [⟨0, some 1⟩, ⟨0, some 24⟩, ⟨2, some 3⟩, ⟨2, some 25⟩, ⟨2, some 4⟩, ⟨2, some 26⟩, ⟨2, some 5⟩, ⟨2, some 27⟩, ⟨2, some 6⟩, ⟨2, some 28⟩, ⟨2, some 7⟩, ⟨2, some 29⟩, ⟨2, some 8⟩, ⟨2, some 30⟩, ⟨2, some 9⟩, ⟨2, some 31⟩, ⟨2, some 10⟩, ⟨2, some 32⟩, ⟨2, some 11⟩, ⟨2, some 33⟩, ⟨2, some 12⟩, ⟨2, some 34⟩, ⟨13, some 15⟩, ⟨13, some 36⟩, ⟨13, some 14⟩, ⟨13, some 35⟩, ⟨77, some 78⟩, ⟨77, some 80⟩, ⟨16, some 17⟩, ⟨16, some 18⟩, ⟨44, some 81⟩]⟩,
+    ⟨"prefault", 86, 3349, []⟩,
+    ⟨"prefault", 86, 3362, []⟩,
+    ⟨"prefault", 86, 3383, []⟩,
+    ⟨"nilable", 87, 2280, [⟨0, some 1⟩, ⟨2, some 3⟩, ⟨2, some 7⟩, ⟨13, some 15⟩, ⟨13, some 14⟩, ⟨77, some 78⟩]⟩,
+    ⟨"finite", 74, 2404, [⟨42, none⟩]⟩,
+    ⟨"multipleof", 70, 2414, []⟩,
+    ⟨"includes", 70, 2441, [⟨46, none⟩]⟩,
+    ⟨"startswith", 70, 2445, [⟨46, none⟩]⟩,
+    ⟨"endswith", 70, 2449, [⟨46, none⟩]⟩,
+    ⟨"ipv4", 73, 2251, [⟨46, none⟩]⟩,
+    ⟨"ipv6", 73, 2251, [⟨46, none⟩]⟩,
+    ⟨"cidrv4", 73, 2251, [⟨46, none⟩]⟩,
+    ⟨"cidrv6", 73, 2251, [⟨46, none⟩]⟩,
+    ⟨"cuid", 73, 2251, [⟨46, none⟩]⟩,
+    ⟨"cuid2", 73, 2251, [⟨46, none⟩]⟩,
+    ⟨"jwt", 73, 2251, [⟨46, none⟩]⟩,
+    ⟨"iso_datetime", 73, 2251, [⟨46, none⟩]⟩,
+    ⟨"iso_date", 73, 2251, [⟨46, none⟩]⟩,
+    ⟨"iso_time", 73, 2251, [⟨46, none⟩]⟩,
+    ⟨"iso_duration", 73, 2251, [⟨46, none⟩]⟩
   ]
 
 end Gozod.Gen
